@@ -4,7 +4,9 @@
 //! h2 and rustls, over the simulated network. Mode `e2e` decides C01 (and feeds C13 / C17).
 
 pub mod infra;
+pub mod shutdown;
 pub mod sniff;
+pub mod srvfault;
 
 use std::collections::BTreeMap;
 use std::sync::Arc;
